@@ -531,7 +531,8 @@ Eval(e, S) ==
                          IF ~Ok(i.s) THEN R(VVoid, i.s)
                          ELSE IF i.v.v < 0 \/ i.v.v >= Len(a.v.v) THEN R(VVoid, Fail(i.s, "oob"))
                          ELSE LET v == a.v.v[i.v.v + 1] IN R(v, DropAll(Inc(i.s, v), RefsIn(a.v)))
-     [] e.k = "aasg"  -> LET i == Eval(e.i, S)  x == Eval(e.e, i.s)  arr == ReadName(S, e.n) IN
+     \* the array is read after the index and the value have been evaluated: what those expressions wrote to it persists
+     [] e.k = "aasg"  -> LET i == Eval(e.i, S)  x == Eval(e.e, i.s)  arr == ReadName(x.s, e.n) IN
                          IF ~Ok(x.s) THEN R(VVoid, x.s)
                          ELSE IF i.v.v < 0 \/ i.v.v >= Len(arr.v) THEN R(VVoid, Fail(x.s, "oob"))
                          ELSE LET nv == ElemConv(arr.et, x.v)
